@@ -20,6 +20,24 @@ Theorem C09_declarator_recorded_as_written : forall fuel d rest,
 Proof. exact declarator_roundtrip. Qed.
 Print Assumptions C09_declarator_recorded_as_written.
 
+(* a run of built-in type words, const / volatile and storage classes is consumed completely, the words recorded in the
+   order written, each qualifier wherever it stands *)
+Theorem C09_specifier_run_recorded : forall toks fuel c found s rest,
+  forallb is_spec_tok toks = true -> ends_spec rest -> List.length toks < fuel ->
+  p_specifier fuel c found s (toks ++ rest) = Ok (fold_left spec_step toks s, rest).
+Proof. exact specifier_run_recorded. Qed.
+Print Assumptions C09_specifier_run_recorded.
+
+Theorem C09_const_anywhere_in_the_run : forall toks s,
+  ss_const (fold_left spec_step toks s) = ss_const s || existsb (fun t => match tk t with TYPE_QUALIFIER => ueqb (tv t) (cp "const") | _ => false end) toks.
+Proof. exact fold_spec_flags. Qed.
+Print Assumptions C09_const_anywhere_in_the_run.
+
+Theorem C09_words_in_written_order : forall toks s,
+  ss_spec (fold_left spec_step toks s) = ss_spec s ++ map tv (filter (fun t => match tk t with TYPE_SPECIFIER => true | _ => false end) toks).
+Proof. exact fold_spec_words. Qed.
+Print Assumptions C09_words_in_written_order.
+
 (* the C rendering of a declarator is the C++ rendering of its documented C counterpart (references as pointers) *)
 Theorem C09_c_rendering_is_pointer_form : forall d, render_dtor true d = render_dtor false (as_c_dtor d).
 Proof. exact c_rendering_is_pointer_form. Qed.
